@@ -29,7 +29,7 @@ use rustc_hir::def_id::LOCAL_CRATE;
 use rustc_interface::interface;
 use rustc_middle::ty::TyCtxt;
 
-pub const SCHEMA: i128 = 6;
+pub const SCHEMA: i128 = 7;
 
 struct Cb {
     crates: Vec<String>,
